@@ -27,6 +27,7 @@ func (vc *VC) candidateInvariants() (map[int][]*Clause, error) {
 		}
 	}
 	var frames []string // expressions whose value may simply be unchanged by a loop
+	intFrame := map[string]bool{}
 	for _, p := range fn.Params {
 		if pt, ok := p.Type().Underlying().(*types.Pointer); ok && isInteger(pt.Elem()) {
 			add(&ints, "deref("+p.Name()+")")
@@ -70,11 +71,16 @@ func (vc *VC) candidateInvariants() (map[int][]*Clause, error) {
 			case isInteger(f.Type()):
 				if !seen[expr] {
 					frames = append(frames, expr)
+					intFrame[expr] = true
 				}
 				add(&ints, expr)
 			default:
 				if _, ok := f.Type().Underlying().(*types.Slice); ok {
 					add(&lens, expr)
+				}
+				if _, ok := f.Type().Underlying().(*types.Struct); ok && !seen["frame:"+expr] {
+					seen["frame:"+expr] = true
+					frames = append(frames, expr)
 				}
 			}
 		}
@@ -142,7 +148,7 @@ func (vc *VC) candidateInvariants() (map[int][]*Clause, error) {
 		}
 		for _, fr := range frames {
 			mk(fr + " == old(" + fr + ")")
-			if strings.HasPrefix(fr, "deref(") {
+			if strings.HasPrefix(fr, "deref(") || intFrame[fr] {
 				mk(fr + " >= old(" + fr + ")")
 			}
 		}
